@@ -40,6 +40,10 @@ def _array_cap(prog, g, e, env):
                 if hi == INF or lo < 0:
                     return None, show(b[1])
                 return b[2] - hi * b[3], show(b[1])
+        if kind(x) == "var":
+            v = g.fn.vars.get(x[1])
+            if v and v.get("array_n") and v.get("bytes"):
+                return v["bytes"], x[1]          # &arr: the whole array
         return None, None
     if k == "bin" and e[1] == "+":
         b = strip(e[2])
@@ -68,6 +72,8 @@ def scan(prog):
                 k = kind(x)
                 if k == "call" and callee_name(x) in ("memcpy", "memset", "memmove") and len(x[3]) == 3:
                     cands.append(("mem", x))
+                elif k == "call" and callee_name(x) in ("memcmp", "secp256k1_memcmp_var") and len(x[3]) == 3:
+                    cands.append(("cmp", x))
                 elif k == "index":
                     b = strip(x[1])
                     if kind(b) == "decay" and b[4] and int_val(x[2]) is None:
@@ -100,6 +106,17 @@ def scan(prog):
                         add(idb, x[2], "pre", text, None, "argument %s not bounded by intervals" % fmt(iv))
                     else:
                         add(idb, x[2], "pre", text, iv[0] >= 1, "argument in %s" % fmt(iv))
+                    continue
+                if kd == "cmp":
+                    # a comparison against a whole array compares all of it (a length of sizeof(pointer) compares a prefix)
+                    ln = g.ev(x[3][2], env)
+                    for which, arg in (("a", x[3][0]), ("b", x[3][1])):
+                        cap, desc = _array_cap(prog, g, arg, env)
+                        if desc is None or cap is None:
+                            continue
+                        idb = "R-CAP:%s:%s:whole(%s)" % (f.name, callee_name(x), desc)
+                        text = "%s against %s must compare all %d bytes of it (length %s)" % (callee_name(x), desc, cap, show(x[3][2]))
+                        add(idb, x[2], "cmp", text, ln[0] == cap and ln[1] == cap, "length in %s, %s has %d bytes from the compared offset" % (fmt(ln), desc, cap))
                     continue
                 if kd == "mem":
                     ln = g.ev(x[3][2], env)
